@@ -70,6 +70,8 @@ def cases(draw, closed_only, allow_verify):
         else:
             case["loose"] = [*case["loose"], big]
             case["request"] = sorted({*case["request"], ntrees + len(case["loose"]) - 1})
+    # kind of the injected upload failure (OSError subclass is chosen by errno)
+    case["fail_errno"] = draw(st.sampled_from(["EIO", "EIO", "ENOENT", "EACCES", "ENOSPC"]))
     # placement by hard link instead of copy (cache type hardlink); applies to hashfile.transfer() only
     case["hardlink"] = draw(st.sampled_from([False, False, True]))
     if allow_verify and draw(st.integers(0, 3)) == 0:
@@ -363,7 +365,8 @@ def execute(case, ctx, d, monitor_closure=True):  # noqa: C901, PLR0912, PLR0915
     o.raised = None
     o.push_counts = []
     o.via_push = via_push
-    inj = Injector([dst_root], fail=fail, abort_at=case["abort_at"], monitor=monitor)
+    inj = Injector([dst_root], fail=fail, abort_at=case["abort_at"], monitor=monitor,
+                   err=case.get("fail_errno") or "EIO")
     with inj:
         try:
             o.result = do_transfer(inj)
@@ -409,6 +412,8 @@ def classes_of(case, o):
         cl.append("object-size-at-power-of-two(>=1MiB)")
     if getattr(o, "ref_groups", 0) >= 2:
         cl.append("source-on->=2-filesystem-objects")
+    if o.inj.faulted and case.get("fail_errno", "EIO") != "EIO":
+        cl.append(f"fault-errno={case['fail_errno']}")
     if o.inj.faulted:
         cl.append("fault-hit")
     if o.inj.aborted:
